@@ -7,6 +7,8 @@ pub enum Target {
     Absolute(String, u16),
     /// not a proxy request this client can serve
     Invalid(&'static str),
+    /// outside the grammar the property speaks about (authority with userinfo)
+    Unspecified,
 }
 
 /// host[:port] with "last colon outside brackets" rule. Host may be reg-name, IPv4 or [IPv6].
@@ -54,6 +56,10 @@ fn split_host_port(authority: &str) -> Result<(String, Option<u16>), &'static st
 
 pub fn extract(method: &str, target: &str) -> Target {
     if method == "CONNECT" {
+        // authority-form is host ":" port and nothing else (RFC 9112 3.2.3): no scheme, path, query or userinfo
+        if target.contains(|c| c == '/' || c == '?' || c == '#' || c == '@') {
+            return Target::Invalid("CONNECT target is not authority-form");
+        }
         match split_host_port(target) {
             Ok((h, Some(p))) => Target::Connect(h, p),
             Ok((_, None)) => Target::Invalid("CONNECT without port"),
@@ -69,6 +75,9 @@ pub fn extract(method: &str, target: &str) -> Target {
         }
         let rest = &target[i + 3..];
         let end = rest.find(|c| c == '/' || c == '?' || c == '#').unwrap_or(rest.len());
+        if rest[..end].contains('@') {
+            return Target::Unspecified;
+        }
         match split_host_port(&rest[..end]) {
             Ok((h, p)) => Target::Absolute(h, p.unwrap_or(80)),
             Err(e) => Target::Invalid(e),
